@@ -192,7 +192,7 @@ def replay(al, hist, tix):
     handles = []      # [(label, object)] strong references: exactly the model's `ref`
     serial = Serial()
     steps = []
-    prev_occ = []
+    prev_occ, prev_roots = [], []
     for n, e in enumerate(hist):
         act, kind, i, j1, j2, j = e
         lab = (kind, i, j1, j2)
@@ -358,6 +358,7 @@ def run_pools(job, out):
 def main():
     job = json.load(open(sys.argv[1]))
     out = ShardWriter(sys.argv[2], 10 ** 9)
+    claripy.true(), claripy.false()       # lazily created singletons: allocate them before the baseline is taken
     gc.collect()
     gc.freeze()          # everything allocated by the imports is permanent: collections during replay stay cheap
     extra = {}
